@@ -32,9 +32,10 @@ def BOUNDS(tier):
                 "message boundary / inside the last message; first send() accepts all / len-1 bytes or would block, second all or would block; every "
                 "interleaving of I/O thread and workers with at most 1 pre-emption, at source-line granularity with one worker and at the granularity "
                 "of lock / condition / socket / pipe / select operations with two workers." % (sorted(KINDS),))
-    return ("all pipelines of 1..2 requests and 5 of 3 requests over %r x lookahead {0,1,2} x 1..2 workers; one read or two reads cut at 4 structural "
-            "offsets; first send() accepts all / 1 / len-1 bytes or would block; at most 1 pre-emption at source-line granularity, and at most 2 "
-            "pre-emptions at the granularity of lock / condition / socket / pipe / select operations on 5 pipelines." % (sorted(KINDS),))
+    return ("the quick set plus all pipelines of 1..2 requests and 3 of 3 requests over %r x lookahead {0,1} with one worker (one read or two reads "
+            "cut at the message boundary / inside the last message; first send() all / len-1 / would block / stall-then-partial), at most 1 pre-emption "
+            "at source-line granularity; and at most 2 pre-emptions at the granularity of lock / condition / socket / pipe / select operations on 3 "
+            "pipelines." % (sorted(KINDS),))
 
 
 def jobs(tier):
@@ -52,17 +53,17 @@ def jobs(tier):
                 js.append(dict(name="%s:la%d:w%d" % ("".join(p), la, w), pipe=p, lookahead=la, workers=w, P=1,
                                gran="line" if w == 1 else "sync", rich=False))
         return js
-    pipes = [[a] for a in kinds] + [[a, b] for a in kinds for b in kinds]
-    pipes += [["G", "P", "G"], ["P", "E", "G"], ["G", "G", "C"], ["E", "G", "P"], ["G", "C", "G"]]
+    js = jobs("quick")
+    have = set(j["name"] for j in js)
+    pipes = [[a] for a in kinds] + [[a, b] for a in kinds for b in kinds] + [["G", "P", "G"], ["P", "E", "G"], ["G", "G", "C"]]
     for p in pipes:
-        for la in (0, 1, 2):
-            for w in (1, 2):
-                js.append(dict(name="%s:la%d:w%d" % ("".join(p), la, w), pipe=p, lookahead=la, workers=w, P=1,
-                               gran="line" if w == 1 else "sync", rich=(w == 1 and len(p) < 3)))
+        for la in (0, 1):
+            nm = "%s:la%d:w1" % ("".join(p), la)
+            if nm not in have:
+                js.append(dict(name=nm, pipe=p, lookahead=la, workers=1, P=1, gran="line", rich=False))
     # two pre-emptions at the granularity of lock / condition / socket / pipe / select operations only
-    for p in (["G", "P"], ["P", "G"], ["E", "G"], ["G", "C"], ["G", "G", "G"]):
-        for la, w in ((0, 1), (2, 2)):
-            js.append(dict(name="%s:la%d:w%d:P2sync" % ("".join(p), la, w), pipe=p, lookahead=la, workers=w, P=2, gran="sync", rich=False))
+    for p in (["G", "P"], ["E", "G"], ["G", "C"]):
+        js.append(dict(name="%s:la0:w1:P2sync" % "".join(p), pipe=p, lookahead=0, workers=1, P=2, gran="sync", rich=False))
     return js
 
 
